@@ -112,6 +112,9 @@ class UVLWriter(ModelToText):
             result = str(value).lower()
         elif isinstance(value, list):
             result = f'[{", ".join(cls.serialize_value(v) for v in value)}]'
+            if len(value) == 1 and isinstance(value[0], int) and not isinstance(value[0], bool):
+                # '[n]' is the cardinality token of UVL: keep the brackets apart from the integer
+                result = f'[ {value[0]} ]'
         elif isinstance(value, dict):
             items = [safename(str(k)) if v is None else f'{safename(str(k))} {cls.serialize_value(v)}'
                      for k, v in value.items()]
